@@ -1429,7 +1429,7 @@ func (g *pgGen) stSliceWrite(c pgCtx) bool {
 	return true
 }
 
-// stCopy defines a fresh destination not longer than the source and copies into it.
+// stCopy defines a fresh destination (shorter than, as long as or longer than the source) and copies into it.
 func (g *pgGen) stCopy(c pgCtx) bool {
 	if !g.o.Slices {
 		return false
@@ -1442,8 +1442,9 @@ func (g *pgGen) stCopy(c pgCtx) bool {
 	}
 	d := g.fresh()
 	n := g.rn(pgMin(src.minLen, pgLit0Max) + 1)
-	if !g.o.Safe && g.p(30) {
-		n = g.rn(pgLit0Max + 1)
+	if g.p(40) {
+		n = g.rn(pgLit0Max + 1) // also destinations longer than the source: the tail stays, the count is the source's length
+		g.f("copy_any_length")
 	}
 	if n == 0 && g.p(50) {
 		g.line(in, fmt.Sprintf("var %s %s", d, ty))
